@@ -123,7 +123,7 @@ class OsProxy:
 
 
 class Shim:
-    """mode: 'count' | 'fail' | 'crash'; at: index of the op to hit; only write-mode opens are counted."""
+    """mode: 'count' | 'fail' | 'fail-all' | 'crash'; at: index of the op to hit; only write-mode opens are counted."""
 
     def __init__(self, mode="count", at=None, err=errno.EIO, logfd=None):
         self.mode = mode
@@ -145,6 +145,10 @@ class Shim:
         self.ops.append((name, base))
         if self.logfd is not None:
             _os.write(self.logfd, f"{idx} {name} {base}\n".encode())
+        if self.mode == "fail-all":
+            # the disk is full / gone for the whole time the shim is installed: every file operation fails
+            self.fired = True
+            raise OSError(self.err, f"injected {errno.errorcode.get(self.err, self.err)} at op {idx} ({name} {base})")
         if self.at is not None and idx == self.at and not self.fired:
             self.fired = True
             if self.mode == "crash":
